@@ -1634,6 +1634,23 @@ def parents_reader_rule(model, rep, gp, reg, rule):
     return ok
 
 
+class _Quiet:
+    def violation(self, *a, **k):
+        pass
+
+    def instance(self, *a, **k):
+        pass
+
+
+def reads_back_in_order(model, fn, reg):
+    """does this function, which lists predecessors itself, put them into the stored input order position by position
+    (the shape parents_reader_rule accepts for _get_parents)?"""
+    try:
+        return bool(parents_reader_rule(model, _Quiet(), fn, reg, "-"))
+    except AnalysisError:
+        return False
+
+
 def find_domain_rule(model, rep, r, rule):
     """_find_domain against its reference text (sa/spec_sys.py): a source is its own domain, a mux belongs to the root source
     above its first input that carries a voltage, everything else inherits; decided by reference comparison of the path
